@@ -36,6 +36,9 @@ def reals(rng: random.Random, shape, lo=-10.0, hi=10.0, special=True):
             flat[i] = 0.0
         elif special and r < 0.15:
             flat[i] = rng.choice([1e-12, -1e-12, 1e8, -1e8])
+        elif special and r < 0.35:
+            # small dyadic values: rows / columns whose entries cancel EXACTLY do occur (sum-based shortcuts must not fire)
+            flat[i] = rng.choice([1.0, -1.0, 2.0, -2.0, 0.5, -0.5, 0.25, -0.75])
         else:
             flat[i] = rng.uniform(lo, hi)
     return a
